@@ -8,8 +8,14 @@ from . import core, treeio, fam_io
 ch = treeio.chars
 
 
-def kind(word, tag='NN', edge='--', sfx=False):
-    return {'word': ch(word), 'tag': ch(tag), 'edge': ch(edge), 'sfx': sfx}
+def kind(word, tag='NN', edge='--', sfx=False, lemma='--', morph='--'):
+    return {'word': ch(word), 'tag': ch(tag), 'edge': ch(edge), 'sfx': sfx, 'lemma': ch(lemma), 'morph': ch(morph)}
+
+
+# field lengths around the export tab stops (7/8, 15/16, 23/24; the morphology column is offset by 8)
+LENKINDS = [kind('a' * 7, morph='Comp.Nom.Sg.Masc', lemma='l' * 8), kind('b' * 8, morph='m' * 15, lemma='l' * 7),
+            kind('c' * 15, morph='m' * 8, lemma='l' * 16), kind('d' * 16, morph='m' * 7, lemma='l' * 15),
+            kind('e' * 24, morph='m' * 17, lemma='l' * 23), kind('f' * 23, morph='m' * 24, lemma='l' * 24)]
 
 
 OPTS = {
@@ -62,14 +68,18 @@ def models(tier):
     q = [dict(N=3, MaxCons=2, MaxChain=2, kinds=[kind('w', sfx=True), kind('('), kind('a&<', tag='$(')],
               labels=['NP'], edges=['HD', '--'], profiles=[[], ['lemma'], ['edge', 'morph']]),
          dict(N=4, MaxCons=3, MaxChain=1, kinds=[kind('w', sfx=True)], labels=['S'], edges=['--'],
-              profiles=[[]], only=['export', 'brackets', 'tigerxml', 'discobrackets'])]
+              profiles=[[]], only=['export', 'brackets', 'tigerxml', 'discobrackets']),
+         dict(N=2, MaxCons=2, MaxChain=1, kinds=LENKINDS, labels=['S'], edges=['--'], profiles=[[]],
+              only=['export', 'tigerxml'])]
     t = [dict(N=3, MaxCons=3, MaxChain=2,
               kinds=[kind('w', sfx=True), kind('('), kind(')'), kind('a&<', tag='$('), kind(u'Üb"\'', sfx=True),
                      kind('-LRB-'), kind('x' * 8), kind('y' * 15, sfx=True)],
               labels=['NP', 'S-X'], edges=['HD', '--'],
               profiles=[[], ['lemma'], ['morph'], ['edge'], ['lemma', 'morph', 'edge']]),
          dict(N=5, MaxCons=4, MaxChain=1, kinds=[kind('w', sfx=True)], labels=['S'], edges=['--'],
-              profiles=[[]], only=['export', 'brackets', 'tigerxml', 'discobrackets'])]
+              profiles=[[]], only=['export', 'brackets', 'tigerxml', 'discobrackets']),
+         dict(N=3, MaxCons=2, MaxChain=1, kinds=LENKINDS, labels=['S'], edges=['--'], profiles=[[]],
+              only=['export', 'tigerxml'])]
     return q if tier == 'quick' else t
 
 
@@ -117,7 +127,7 @@ def run(prop, tier, seed, replay=None):
                 args.append(('W-%06d' % n_, T, sid, [(f, list(o), g) for (f, o, g) in jobs], None, seed + n_))
             # seeded random larger trees with exotic words, all formats
             pool = ['w', '(', ')', 'a&b', '<t>', '"q"', "it's", u'Übermaß', u'日本', 'x' * 7, 'y' * 8,
-                    'z' * 15, 'v' * 16, '#5000', '-LRB-', '[', '--', '%s']
+                    'z' * 15, 'v' * 16, 'u' * 23, 't' * 24, 's' * 25, '#5000', '-LRB-', '[', '--', '%s']
             for k in range(150 if tier == 'quick' else 2500):
                 T = treeio.random_tree(rnd, nmax=8 if tier == 'quick' else 11, maxcons=6, labels=('S', 'NP', 'VP-X'),
                                        edges=('HD', '--', 'NK'), tags=('NN', '$('), tokedges=('--', 'HD'),
@@ -129,6 +139,9 @@ def run(prop, tier, seed, replay=None):
                         a[fld] = ch(a[fld]) if a[fld] != '~' else ['~~']
                     if not x['tok']:
                         a['lemma'], a['morph'] = ch('--'), ch('--')
+                    else:
+                        a['lemma'] = ch(rnd.choice(['--', 'l' * 7, 'l' * 8, 'l' * 15, 'l' * 16, 'l' * 24]))
+                        a['morph'] = ch(rnd.choice(['--', 'm' * 7, 'm' * 8, 'm' * 15, 'Comp.Nom.Sg.Masc', 'm' * 24]))
                     a['head'] = rnd.choice(['T', 'F'])
                     a['split'] = rnd.choice(['T', 'F'])
                     a['bn'] = rnd.randint(1, 3)
